@@ -158,7 +158,7 @@ def run(check, tier, seed, replay=None, keep=False):
         cov["states"] = 1
     if cov["transitions"] < 1:
         cov["transitions"] = 1
-    if not replay and not os.environ.get("VERIF_NO_EVIDENCE"):      # (bin/seed-run and bin/mutcheck run on a deliberately broken tree)
+    if not replay and not os.environ.get("VERIF_NO_EVIDENCE") and not pid.startswith("X"):      # (bin/seed-run and bin/mutcheck run on a deliberately broken tree)
         vlib.write_evidence(pid, tier, seed, cov, time.time() - t0, len(violations),
                             getattr(check, "assumptions", []))
     log("%s %s: %d states, %d trace events, %d violations, %.0fs" %
